@@ -1,6 +1,7 @@
 package bt
 
 import (
+	"time"
 	"context"
 	"fmt"
 	"strings"
@@ -106,13 +107,26 @@ func writesAt(r *core.Rng, pos int, nrows int) []*Op {
 			t = 0
 		}
 		k := scanKey(t)
-		switch r.Intn(5) {
+		switch r.Intn(6) {
 		case 0, 1:
 			ops = append(ops, &Op{Kind: "mutate", Name: scanTable, Key: k, Muts: []Mut{{Kind: "set", Fam: "f", Qual: []byte("a"), TS: int64(2000 + 1000*r.Intn(3)), Val: []byte(fmt.Sprintf("w%d", r.Intn(100)))}}})
 		case 2:
 			ops = append(ops, &Op{Kind: "mutate", Name: scanTable, Key: k, Muts: []Mut{{Kind: "delrow"}}})
 		case 3:
 			ops = append(ops, &Op{Kind: "rmw", Name: scanTable, Key: k, Rules: []RmwRule{{Kind: "app", Fam: "g", Qual: []byte("a"), Val: []byte("+")}}})
+		case 4:
+			// writes the service must refuse as a whole: a valid mutation followed by an invalid one (bulk
+			// and single), a read-modify-write naming a family the table does not have
+			switch r.Intn(3) {
+			case 0:
+				ops = append(ops, &Op{Kind: "mutaterows", Name: scanTable, Entries: []Entry{
+					{Key: k, Muts: []Mut{{Kind: "delrow"}, {Kind: "set", Fam: "nofam", Qual: []byte("a"), TS: 1000, Val: []byte("x")}}},
+					{Key: scanKey(target()), Muts: []Mut{{Kind: "set", Fam: "f", Qual: []byte("b"), TS: 1000, Val: []byte("ok")}}}}})
+			case 1:
+				ops = append(ops, &Op{Kind: "mutate", Name: scanTable, Key: k, Muts: []Mut{{Kind: "set", Fam: "f", Qual: []byte("a"), TS: 5000, Val: []byte("half")}, {Kind: "set", Fam: "f", Qual: []byte("a"), TS: 1, Val: []byte("bad-ts")}}})
+			default:
+				ops = append(ops, &Op{Kind: "rmw", Name: scanTable, Key: k, Rules: []RmwRule{{Kind: "app", Fam: "g", Qual: []byte("a"), Val: []byte("+")}, {Kind: "app", Fam: "nofam", Qual: []byte("a"), Val: []byte("+")}}})
+			}
 		default:
 			k2 := scanKey(target())
 			ops = append(ops, &Op{Kind: "mutaterows", Name: scanTable, Entries: []Entry{
@@ -127,7 +141,24 @@ func writesAt(r *core.Rng, pos int, nrows int) []*Op {
 // implementation's side of each.
 func RunScan(p *ScanProgram) (lines []string, impl []string) {
 	env := NewEnv(p.Engine, "")
-	defer env.Close()
+	wedged := ""
+	defer func() {
+		if wedged == "" {
+			env.Close()
+		}
+	}()
+	// a request that does not return within 10 s is a hang (the lock it waits for is never released)
+	execTimed := func(op *Op) string {
+		ch := make(chan string, 1)
+		go func() { ch <- env.Exec(op) }()
+		select {
+		case r := <-ch:
+			return r
+		case <-time.After(10 * time.Second):
+			wedged = "a request let in during the scan never returned: " + op.Line()
+			return "HANG"
+		}
+	}
 	for _, op := range p.setup() {
 		lines = append(lines, op.Line())
 		impl = append(impl, env.Exec(op))
@@ -145,24 +176,47 @@ func RunScan(p *ScanProgram) (lines []string, impl []string) {
 		last := rows[len(rows)-1].Key
 		var pos int
 		fmt.Sscanf(string(last), "r%05d", &pos)
-		ws := writesAt(r, pos, p.NRows)
-		for _, w := range ws {
-			writeResp = append(writeResp, env.Exec(w))
+		if wedged != "" {
+			return
 		}
-		p.Flushes = append(p.Flushes, ScanFlush{After: len(rows), Writes: ws})
+		ws := writesAt(r, pos, p.NRows)
+		var done []*Op
+		for _, w := range ws {
+			writeResp = append(writeResp, execTimed(w))
+			done = append(done, w)
+			if wedged != "" {
+				break
+			}
+		}
+		p.Flushes = append(p.Flushes, ScanFlush{After: len(rows), Writes: done})
 	}
 	resp := ""
-	readErr := func() (err error) {
-		defer func() {
-			if p := recover(); p != nil {
-				err = fmt.Errorf("PANIC in ReadRows (a server fault): %v", p)
-			}
+	readDone := make(chan error, 1)
+	go func() {
+		readDone <- func() (err error) {
+			defer func() {
+				if p := recover(); p != nil {
+					err = fmt.Errorf("PANIC in ReadRows (a server fault): %v", p)
+				}
+			}()
+			return env.svc.Data().(interface {
+				ReadRows(*btpb.ReadRowsRequest, btpb.Bigtable_ReadRowsServer) error
+			}).ReadRows(req, st)
 		}()
-		return env.svc.Data().(interface {
-			ReadRows(*btpb.ReadRowsRequest, btpb.Bigtable_ReadRowsServer) error
-		}).ReadRows(req, st)
 	}()
-	if readErr != nil && strings.HasPrefix(readErr.Error(), "PANIC") {
+	var readErr error
+	hung := false
+	select {
+	case readErr = <-readDone:
+	case <-time.After(90 * time.Second):
+		hung = true
+		if wedged == "" {
+			wedged = "ReadRows did not return"
+		}
+	}
+	if hung || wedged != "" {
+		resp = "HANG: the scan did not end normally (" + wedged + ")"
+	} else if readErr != nil && strings.HasPrefix(readErr.Error(), "PANIC") {
 		resp = readErr.Error()
 	} else if err := readErr; err != nil {
 		resp = errResp(err)
@@ -187,8 +241,17 @@ func RunScan(p *ScanProgram) (lines []string, impl []string) {
 	}
 	lines = append(lines, strings.Join(parts, " "))
 	impl = append(impl, resp)
+	// afterwards the table must still take a write (a lock left behind by a request of the window would
+	// block it) and serve what is stored
+	probe := &Op{Kind: "mutate", Name: scanTable, Key: []byte("zz-probe"), Muts: []Mut{{Kind: "set", Fam: "f", Qual: []byte("p"), TS: 1000, Val: []byte("p")}}}
 	final := &Op{Kind: "read", Name: scanTable}
-	lines = append(lines, final.Line())
-	impl = append(impl, env.Exec(final))
+	for _, op := range []*Op{probe, final} {
+		lines = append(lines, op.Line())
+		if wedged != "" {
+			impl = append(impl, "HANG (the service is wedged)")
+		} else {
+			impl = append(impl, execTimed(op))
+		}
+	}
 	return
 }
